@@ -5,8 +5,9 @@ import IncrVerif.Props.C14History
 # Per-key operators: the check of CK1 on example histories (kernel-checked)
 
 The environment of EX1 (`exDefsP`, copied as `ckDefs`: five families) and a history WITHOUT key removals (stage 1):
-`ckHist fam`.  Families P0, P3, P4 pass the check; P1, P2 (the template does not use the per-key input node) and the
-history `ckHistRm` (a key is removed) are rejected.
+`ckHist fam`.  All five families P0–P4 pass the check (P1, P2: the template does not use the per-key input node), so does
+the variant `ckHistCut` with the explicit default cutoff (`perKey (some .eq) …`); the history `ckHistRm` (a key is removed)
+is rejected.
 -/
 namespace IncrVerif.Proofs.PerKeyH
 open IncrVerif.Engine IncrVerif.Driver IncrVerif.Proofs IncrVerif.Proofs.ExpertH
@@ -38,6 +39,10 @@ def ckHist (fam : Nat) : List Action :=
    .observe (.outer 3), .stabilise,
    .set 0 (.map [(1, 5), (5, 1), (6, 2), (8, 1), (9, 0)]), .set 2 (.int 5), .stabilise]
 
+/-- the same history with the explicit default cutoff: `perKey (some .eq) P<fam> n0` -/
+def ckHistCut (fam : Nat) : List Action :=
+  (ckHist fam).take 3 ++ [.create (.perKey (some .eq) fam (.outer 0))] ++ (ckHist fam).drop 4
+
 /-- the same prefix, then a key is removed -/
 def ckHistRm (fam : Nat) : List Action :=
   (ckHist fam).take 10 ++ [.set 0 (.map [(1, 4), (6, 2)]), .stabilise]
@@ -47,6 +52,10 @@ def ckHistRm (fam : Nat) : List Action :=
 theorem ck_templ : templOKB (effOfDefs ckDefs) (ckEnv.perKey 0) = true ∧ templOKB (effOfDefs ckDefs) (ckEnv.perKey 3) = true ∧
     templOKB (effOfDefs ckDefs) (ckEnv.perKey 4) = true ∧ usesB (ckEnv.perKey 1) = false ∧ usesB (ckEnv.perKey 2) = false :=
   ⟨by decide +kernel, by decide +kernel, by decide +kernel, by decide +kernel, by decide +kernel⟩
+
+/-- the families that ignore their input are templates of the fragment -/
+theorem ck_templ12 : templOKB (effOfDefs ckDefs) (ckEnv.perKey 1) = true ∧ templOKB (effOfDefs ckDefs) (ckEnv.perKey 2) = true :=
+  ⟨by decide +kernel, by decide +kernel⟩
 
 theorem ck_templOK : TemplOK ckEnv (ckEnv.perKey 0) ∧ TemplOK ckEnv (ckEnv.perKey 3) ∧ TemplOK ckEnv (ckEnv.perKey 4) :=
   ⟨templOKB_sound (toEnv_heff ckDefs) ck_templ.1, templOKB_sound (toEnv_heff ckDefs) ck_templ.2.1,
@@ -63,17 +72,31 @@ theorem ckP0_check : runOKPB ckEnv (effOfDefs ckDefs) (ckHist 0) (State.init 128
 set_option maxRecDepth 100000 in
 theorem ckP4_check : runOKPB ckEnv (effOfDefs ckDefs) (ckHist 4) (State.init 128 true) #[] = true := by decide +kernel
 
+set_option maxRecDepth 100000 in
+theorem ckP1_check : runOKPB ckEnv (effOfDefs ckDefs) (ckHist 1) (State.init 128 true) #[] = true := by decide +kernel
+
+set_option maxRecDepth 100000 in
+theorem ckP2_check : runOKPB ckEnv (effOfDefs ckDefs) (ckHist 2) (State.init 128 true) #[] = true := by decide +kernel
+
+set_option maxRecDepth 100000 in
+theorem ckP3cut_check : runOKPB ckEnv (effOfDefs ckDefs) (ckHistCut 3) (State.init 128 true) #[] = true := by
+  decide +kernel
+
+/-- the histories of the families that ignore their input, and the variant with the explicit default cutoff, are histories
+of the fragment -/
+theorem ck_runOKP12 : RunOKP ckEnv (ckHist 1) (State.init 128 true) #[] ∧ RunOKP ckEnv (ckHist 2) (State.init 128 true) #[] ∧
+    RunOKP ckEnv (ckHistCut 3) (State.init 128 true) #[] :=
+  ⟨runOKP_of_check ckP1_check, runOKP_of_check ckP2_check, runOKP_of_check ckP3cut_check⟩
+
 /-- the three histories are histories of the fragment -/
 theorem ck_runOKP : RunOKP ckEnv (ckHist 0) (State.init 128 true) #[] ∧ RunOKP ckEnv (ckHist 3) (State.init 128 true) #[] ∧
     RunOKP ckEnv (ckHist 4) (State.init 128 true) #[] :=
   ⟨runOKP_of_check ckP0_check, runOKP_of_check ckP3_check, runOKP_of_check ckP4_check⟩
 
 set_option maxRecDepth 100000 in
-/-- rejected: families P1, P2 (`UsesInput` fails), and a history that removes a key -/
-theorem ck_reject : runOKPB ckEnv (effOfDefs ckDefs) (ckHist 1) (State.init 128 true) #[] = false ∧
-    runOKPB ckEnv (effOfDefs ckDefs) (ckHist 2) (State.init 128 true) #[] = false ∧
-    runOKPB ckEnv (effOfDefs ckDefs) (ckHistRm 3) (State.init 128 true) #[] = false :=
-  ⟨by decide +kernel, by decide +kernel, by decide +kernel⟩
+/-- rejected: a history that removes a key -/
+theorem ck_reject : runOKPB ckEnv (effOfDefs ckDefs) (ckHistRm 3) (State.init 128 true) #[] = false := by
+  decide +kernel
 
 set_option maxRecDepth 100000 in
 /-- the accepted histories run without error (so the check looked at every action), and the in-use observer reads
@@ -81,5 +104,15 @@ set_option maxRecDepth 100000 in
 theorem ck_run : ranOk ckEnv (ckHist 0) = true ∧ ranOk ckEnv (ckHist 3) = true ∧ ranOk ckEnv (ckHist 4) = true ∧
     readAfter ckEnv (ckHist 3) 1 = some (.map [(1, 3), (5, 6), (6, 0), (8, 6), (9, 5)]) :=
   ⟨by decide +kernel, by decide +kernel, by decide +kernel, by decide +kernel⟩
+
+set_option maxRecDepth 100000 in
+/-- the histories of P1, P2 and the cutoff variant run without error; the in-use observer reads `{k ↦ (1 + n2) mod 7}`
+(P1 `map f1 n2`: the same value for every key), `{k ↦ n2}` (P2 `ret n2`: ONE shared node for all keys) with `n2 = 5`, and
+the cutoff variant reads what `ckHist 3` reads -/
+theorem ck_run12 : ranOk ckEnv (ckHist 1) = true ∧ ranOk ckEnv (ckHist 2) = true ∧ ranOk ckEnv (ckHistCut 3) = true ∧
+    readAfter ckEnv (ckHist 1) 1 = some (.map [(1, 6), (5, 6), (6, 6), (8, 6), (9, 6)]) ∧
+    readAfter ckEnv (ckHist 2) 1 = some (.map [(1, 5), (5, 5), (6, 5), (8, 5), (9, 5)]) ∧
+    readAfter ckEnv (ckHistCut 3) 1 = some (.map [(1, 3), (5, 6), (6, 0), (8, 6), (9, 5)]) :=
+  ⟨by decide +kernel, by decide +kernel, by decide +kernel, by decide +kernel, by decide +kernel, by decide +kernel⟩
 
 end IncrVerif.Proofs.PerKeyH
